@@ -7,7 +7,7 @@ from ._conn_texts import ASSUME, TRUSTED
 class Prop(ConnProp):
     id = "C02"
     lean_module = "MuduoVerif.Props.C02"
-    gen_engines = ConnProp.gen_engines + ["Pool", "Owner", "SysSkel"]   # Owner: the multi-loop ownership protocol of TcpServer; SysSkel: ~Socket / sockets::close
+    gen_engines = ConnProp.gen_engines + ["Pool", "Owner", "SysSkel", "OwnerSkel"]   # Owner: the multi-loop ownership protocol of TcpServer; SysSkel: ~Socket / sockets::close; OwnerSkel: statement order of every function of TcpServer.cc
     drivers = ConnProp.drivers + ["owner"]
     technique = ("Lean 4 invariant proof (life-cycle automaton accepted by every history of the TcpConnection model) + T1 "
                  "guard/hand-off extraction + differential run vs. the real TcpConnection over all close causes")
@@ -47,11 +47,16 @@ class Prop(ConnProp):
             "shutdown(), forceClose(), forceCloseWithDelay() or destruction of the TcpServer with connections up, new "
             "connections accepted while old ones close), oracle only. Plus Owner cases (vlib/owner_common.gen_case: L in 0..3 io "
             "loops, <= 6 raw peers, schedules of iter/step per loop thread, send/FIN/RST, forceClose/shutdown/hold/drop from a "
-            "foreign thread, server destroyed inside the base loop or after quit() with closes in flight): model == implementation "
+            "foreign thread, server destroyed inside the base loop or after quit() with closes in flight; every fifth case from "
+            "owner_common.handover_case: the acceptor thread parked immediately after the hand-over of connectEstablished while the "
+            "io loop establishes the connection and handles the peer's already queued FIN/RST): model == implementation "
             "trace (conn, event, loop thread) per step + independent oracle")
     trusted_base = TRUSTED + [
         "vlib/gen/sysskel.py (clang-14 JSON AST -> Generated/SysSkel.lean: statement skeletons of every function of SocketsOps.cc, Socket.cc/.h, InetAddress.cc/.h, Endian.h, Poller.cc, poller/DefaultPoller.cc, the poller constructors/destructors, Channel::tie, createEventfd, createTimerfd; what it leaves out is listed in the generated header) and the reading Model/SysSkelDecl.lean of what the "
         "models assume of each primitive (one system call, arguments passed through, result returned unchanged, failures only logged - or exactly the declared extra work); C02 depends on socket_dtor_closes_once (Socket::Socket, ~Socket, sockets::close); still trusted: the kernel's / glibc's behaviour behind each system call",
+        "vlib/gen/ownerskel.py (clang-14 JSON AST -> Generated/OwnerSkel.lean: statement skeletons of every function of TcpServer.cc - constructor, destructor, setThreadNum, start, newConnection, removeConnection, removeConnectionGuarded, removeConnectionIfAlive, removeConnectionInLoop; what it leaves out is listed in the generated header) and the reading Model/OwnerSkelDecl.lean of the "
+        "order the steps of Model/Owner.lean assume (server_statement_order_tied: equality per function + handover_is_last: in newConnection all four callbacks and the map entry are in place before the one hand-over of connectEstablished and nothing touches the connection after it); the Owner model keeps newConnection as ONE atomic step - justified by handover_is_last, exercised concretely by the "
+        "`holdHandover` schedules (harness/owner_drv.cc parks the acceptor thread at EventLoop::queueInLoop:appended right after the hand-over while the io loop runs)",
     ]
     assumptions = ASSUME
     oracles = [conn_oracle.updown_oracle]
@@ -63,7 +68,12 @@ class Prop(ConnProp):
             return server_free.replay(ctx, self.id, replay)
         if replay and owner_common.is_owner_replay(replay):
             return owner_common.replay(ctx, self.id, replay)
-        ConnProp.correspondence(self, ctx, replay)
+        if not replay and ctx.search_mode:
+            # an obligation / tie broke: the deterministic schedules of the Owner engine first (milliseconds each), so
+            # that the first concrete replay is a deterministic one and not a free-running scenario
+            owner_common.explore_corpus(ctx, self.id)
+        if replay or not ctx.stop():
+            ConnProp.correspondence(self, ctx, replay)
         if not replay and not ctx.stop():
             server_free.explore(ctx, self.id)
         if not replay and not ctx.stop():
